@@ -21,7 +21,7 @@ def gen_strings(ctx):
         for cs in itertools.product(ALPHA, repeat=k):
             out.append(''.join(cs))
     rnd = ctx.rnd
-    extra = ['８０８０', '٨٠٨٠', '80８0', '8²', '½', '2000-３０００', '８０/tcp', '80/ｔcp', '1\u200b2', '٣', '8080', '1-2/tcp', '1-2/udp', '65535-65536/tcp', '80/tcp/udp', '80-90-100', ' 80', '80 ', '８０', '80/TCP', '80/tcpx',
+    extra = ['${PORT}', '$PORT', '80-${LAST}', '${A}-${B}/tcp', '${}', '%i', '80-%i/udp', '0x50', '+80', '８０８０', '٨٠٨٠', '80８0', '8²', '½', '2000-３０００', '８０/tcp', '80/ｔcp', '1\u200b2', '٣', '8080', '1-2/tcp', '1-2/udp', '65535-65536/tcp', '80/tcp/udp', '80-90-100', ' 80', '80 ', '８０', '80/TCP', '80/tcpx',
              '80/tc', '80/ud', '80/tdp', '80/ucp', '-', '/', '', '0', '00/udp']
     out += extra
     for _ in range(20000 if ctx.thorough else 3000):
@@ -70,12 +70,14 @@ def oracle(ctx):
     # accepted means accepted by its *form*: a range whose first port is the larger one, ports beyond 65535 or beyond 32 bits, leading
     # zeros — all of them are `port[-port][/tcp|/udp]`
     pool_ok = ['80', '8080-8090', '53/udp', '1-2/tcp', '0', '3000-2000', '10-9/udp', '65535-1', '0100-99', '70000', '99999999999-1/tcp', '0-0', '007']
-    pool_bad = ['/tcp', '-5', '1-/udp', '80/sctp', 'http', '80 90', '80,90', '']
+    # (what systemd would expand later is not a decimal port now: variable references, specifiers, arithmetic — "a decimal port" is digits)
+    pool_bad = ['/tcp', '-5', '1-/udp', '80/sctp', 'http', '80 90', '80,90', '', '${PORT}', '$PORT', '8080-${LAST}/tcp', '${FIRST}-${LAST}', '80${SUFFIX}/udp',
+                '${}', '%i', '80%%', '8080-%i/tcp', '0x50', '8e1', '+80', '80-+90']
     cases = []
     for _ in range(400 if ctx.thorough else 120):
         vals = [rnd.choice(pool_ok) for _ in range(rnd.randint(1, 3))]
         if rnd.random() < 0.5:
-            vals.insert(rnd.randint(0, len(vals)), rnd.choice(pool_bad + [s for s in strings[:2000] if s]))
+            vals.insert(rnd.randint(0, len(vals)), rnd.choice(pool_bad) if rnd.random() < 0.5 else rnd.choice([s for s in strings[:2000] if s]))
         if rnd.random() < 0.25:
             # a value that is not empty in the file but blank once unquoted: not a reset (the raw text is not empty), not a port
             vals.insert(rnd.randint(0, len(vals)), 'BLANK:' + rnd.choice(['""', "''", '" "', '"\\t"', '\\s', '\\x20', '"" ', '"\\x20\\t"']))
@@ -90,6 +92,9 @@ def oracle(ctx):
             return rnd.choice(['" ' + v + ' "', '"' + v + '"', v + '\\t', '\\x20' + v, '"\\t' + v + '"', "' " + v + "'", v + '\\s'])
         deco = [spell(v) for v in vals]
         cases.append((vals, deco))
+    # every value of the pools once on its own, as written
+    for v in pool_bad + pool_ok:
+        cases.append(([v], [v]))
     # one assignment is one value, whatever is inside it: interior white space does not make it a list of ports
     for multi in ('80 90', '8080 9090', '80\t443', '8080 90x0/tcp', '1-2 3-4/udp', '80  81'):
         for before in ([], ['53/udp']):
